@@ -190,6 +190,21 @@ register('C04',
          'Coq proof (max/filter characterisations shared with C08) + vm_compute correspondence against the ORM relationship accessors',
          'DESIGN.md §7 C04')
 
+register('C12',
+         'Coq theorems about `build` (mirror of ColumnReflector / TableBuilder / the tracker plugin column hook) for every configuration '
+         '(unbounded column lists; attributes over the pcol alphabet): every non-excluded parent column is reflected with the same '
+         'name, type and key flag and without uniqueness, auto-increment, on-update, defaults or foreign keys, nullable unless key; an '
+         'excluded column has no counterpart; the key is the parent key plus the non-null transaction column; an end column exactly '
+         'under the validity strategy; an operation-type column; one boolean flag column per non-key non-excluded column iff the tracker '
+         'is on. Random configurations (types, attributes, key shapes, include/exclude, strategy, manager- and class-level column names, '
+         'table-name format, schema, flat / joined / single-table inheritance, tracker) are built on the real code, the version Table is '
+         'reflected into records and compared with `build` and with the property clauses; tables are created and a NULL-filled row '
+         'round-tripped; version_class/parent_class are checked to be inverse bijections.',
+         COMMON_NOTE + 'Names, types and formats are numbered injectively per case. "Every other column nullable" is read as every reflected '
+         'parent column outside the key (operation_type is NOT NULL by design). Association version tables are covered by C10\'s shape only.',
+         'Coq proof (list reasoning over the column list) + reflection of real Table objects evaluated by vm_compute',
+         'DESIGN.md §7 C12')
+
 ALL = ['C%02d' % i for i in range(1, 21)]
 
 
